@@ -9,6 +9,11 @@ S2  the same run's state dump holds, for every input, the expected result of eve
     coordinates, get_atoms_in_cells, create_adjacency_matrix, with/without selection,
     periodic or not).  All of them are executed against the real CellList and compared as
     index sets.
+    The same states hold the squared (minimum-image) pairwise distance matrix of the atoms:
+    the library's own distance functions (index_distance(periodic=True), distance(box=...))
+    must return it, and thresholded it must be the adjacency matrix.  A second family of the
+    model (two atoms, every class of displacements modulo the box, one box per tilt pattern
+    = which pairs of box vectors are not perpendicular) carries this through the whole box.
 S3  seeded larger systems (<= 60 atoms on the lattice / half lattice, clustered, collinear,
     duplicated, far-away queries) are recorded and re-computed by TLC (specs/C14/Trace.tla).
 """
@@ -25,8 +30,8 @@ PROPERTY = "C14"
 
 MANIFEST = {
     "technique": "TLA+ specification of CellList (declarative neighbour sets + implementation-shaped grid model, specs/C14) model-checked by TLC; TLC's expected results for every enumerated input replayed against the real CellList; recorded larger executions re-computed by TLC",
-    "level_text": "TLC enumerates bounded families of integer-lattice inputs (<=3 atoms incl. duplicates and collinear sets, cell sizes 1, 3/2, 2, 5 (1/2), ten radii from 0 to beyond the extent, integer radii with pairs exactly on the sphere, 133 (quick) / 517 (thorough) query points incl. points outside the bounding box and far away, selections, orthorhombic / rotated-orthogonal / triclinic / left-handed periodic boxes) and checks that the grid algorithm of celllist.pyx (minimum-coordinate origin, truncating cell index, clipped cell cube, ceil(radius/cell_size), 27 images) equals the declarative definition, that cell queries are supersets and that the adjacency matrix is symmetric. Every expected result is then compared with the real CellList (index arrays, masks, scalar and per-query radii, single and batched coordinates, ndarray and AtomArray input) in crash-isolated processes; systems of up to 60 atoms on the lattice and half lattice are recorded and re-computed by TLC.",
-    "level_note": "Exact-arithmetic restriction: coordinates, boxes and cell sizes are integers or dyadic rationals, radii are integers or sqrt(k+1/2); nothing is decided about float32 rounding at cell borders or at the sphere for general coordinates. Periodic boxes are restricted to boxes for which TLC itself verified that 27 images contain a minimum image (Dom_Images27); strongly skewed boxes are outside the domain. Results are compared as index sets (duplicates of periodic copies and padding order ignored). Exhaustive only for <=3 atoms; larger systems only through recorded executions. Trusted: TLC, the dump parser, numpy.",
+    "level_text": "TLC enumerates bounded families of integer-lattice inputs (<=3 atoms incl. duplicates and collinear sets, cell sizes 1, 3/2, 2, 5 (1/2), ten radii from 0 to beyond the extent, integer radii with pairs exactly on the sphere, 133 (quick) / 517 (thorough) query points incl. points outside the bounding box and far away, selections, orthorhombic / rotated-orthogonal / triclinic / left-handed periodic boxes) plus two-atom systems whose displacement runs through every class of displacements modulo the box for boxes of all 8 tilt patterns (which of a.b, a.c, b.c are non-zero), and checks that the grid algorithm of celllist.pyx (minimum-coordinate origin, truncating cell index, clipped cell cube, ceil(radius/cell_size), 27 images) equals the declarative definition, that cell queries are supersets, that the adjacency matrix is symmetric and is the thresholded pairwise (minimum-image) distance matrix, and that the algorithm of the distance functions (orthogonal shortcut / 8 periodic copies) finds the shortest copy for every tabulated box. Every expected result is then compared with the real CellList (index arrays, masks, scalar and per-query radii, single and batched coordinates, ndarray and AtomArray input) and with the pairwise distance matrix returned by index_distance(periodic=True) / distance(box=...) (entries and thresholded form against the adjacency matrix) in crash-isolated processes; systems of up to 60 atoms on the lattice and half lattice are recorded and re-computed by TLC.",
+    "level_note": "Exact-arithmetic restriction: coordinates, boxes and cell sizes are integers or dyadic rationals, radii are integers or sqrt(k+1/2); nothing is decided about float32 rounding at cell borders or at the sphere for general coordinates. Periodic boxes are restricted to boxes for which TLC itself verified that 27 images contain a minimum image (Dom_Images27); strongly skewed boxes are outside the domain. The pairwise distance matrix of the library is required to be the minimum-image one only for boxes inside Dom_Images8 (the 8 copies examined by geometry.displacement contain a shortest one; verified by TLC for all 12 tabulated boxes), otherwise only not to be smaller. Results are compared as index sets (duplicates of periodic copies and padding order ignored). Exhaustive only for <=3 atoms; larger systems only through recorded executions. Trusted: TLC, the dump parser, numpy.",
 }
 
 SCALES = (1, 2)           # ticks per length unit (2 = half-lattice points)
@@ -52,7 +57,7 @@ def parse_dump(path):
             vars_[m.group(1)] = m.group(2)
         res = tla_to_py(vars_["vout"])
         if res:
-            out.append((tla_to_py(vars_["vin"]), res))
+            out.append((tla_to_py(vars_["vin"]), res, vars_["vq"].strip().strip('"')))
     return out
 
 
@@ -132,6 +137,55 @@ def bits_to_list(b):
     return [k for k in range(b.bit_length()) if b >> k & 1]
 
 
+PAIR_FORMS = ("index_distance", "index_distance_atoms", "distance_broadcast")
+
+
+def pair_distance_matrix(inp, scale, variant, form):
+    """The library's own pairwise distance matrix of the atoms of a spec input (minimum-image
+    convention when the input is periodic), float array (n, n)."""
+    import numpy as np
+    import biotite.structure as struc
+
+    atoms, _cs, box, _sel = inp
+    n = len(atoms)
+    dt = np.float32 if variant % 2 == 0 else np.float64
+    coord = np.array(atoms, dtype=dt) / scale
+    bx = np.array(box[0], dtype=dt) / scale if box else None
+    pairs = np.array([[k, m] for k in range(n) for m in range(n)], dtype=int)
+    if form == "index_distance":
+        d = struc.index_distance(coord, pairs, periodic=bx is not None, box=bx)
+    elif form == "index_distance_atoms":
+        arr = struc.AtomArray(n)
+        arr.coord = coord.astype(np.float32)
+        if bx is not None:
+            arr.box = bx.astype(np.float32)
+        d = struc.index_distance(arr, pairs, periodic=bx is not None)
+    elif form == "distance_broadcast":
+        d = struc.distance(coord[:, np.newaxis, :], coord[np.newaxis, :, :], box=bx)
+    else:
+        raise ValueError(form)
+    return np.asarray(d, dtype=np.float64).reshape(n, n)
+
+
+def project_d2(dist, scale):
+    """Distances -> squared distances in ticks^2 as integers; -1 where the value is not (within
+    1e-3) an integer, i.e. cannot be the distance of two lattice points."""
+    import numpy as np
+
+    d2 = (np.asarray(dist, dtype=np.float64) * scale) ** 2
+    k = np.rint(d2)
+    ok = np.isfinite(d2) & (np.abs(d2 - k) <= 1e-3)
+    return np.where(ok, k, -1).astype(np.int64)
+
+
+def threshold_rows(dist, rad, selmask):
+    """Rows (lists of indices) of the distance matrix thresholded at rad, restricted to the selection."""
+    import numpy as np
+
+    m = (dist <= rad) & selmask[:, np.newaxis] & selmask[np.newaxis, :]
+    return [np.nonzero(row)[0].tolist() for row in m]
+
+
 def check_input(inp, res, C, scale, variant, light):
     """Run every call the spec predicted for this input. Returns (mismatches, ncalls, diag)."""
     import numpy as np
@@ -139,7 +193,7 @@ def check_input(inp, res, C, scale, variant, light):
     from harness.tlabind.pool import progress
 
     Q, R, CR, MS = C
-    near_p, multi_p, must_p, cells_p, adj = res[0]
+    near_p, multi_p, must_p, cells_p, adj, pair = res[0]
     nq = len(Q)
     n = len(inp[0])
     mism = []
@@ -239,35 +293,59 @@ def check_input(inp, res, C, scale, variant, light):
             rec("create_adjacency_matrix", None, [bits_to_list(b) for b in adj[r]], [bits_to_list(b) for b in got], {"rho": rho})
         elif not (m == m.T).all():
             rec("create_adjacency_matrix", None, "symmetric", "asymmetric", {"rho": rho})
+    # the pairwise distance matrix of the library's own distance functions: its entries are
+    # the spec's squared distances and, thresholded (and restricted to the selection), it is
+    # the adjacency matrix.  For a box outside Dom_Images8 (pair_exact false) entries may be
+    # larger, i.e. the thresholded matrix is only contained in the adjacency matrix.
+    pd2, pair_exact = pair
+    selmask = np.array([bool(selbits >> k & 1) for k in range(n)])
+    for f, form in enumerate(PAIR_FORMS):
+        progress({"inp": inp, "scale": scale, "variant": variant, "call": "pair_distance", "form": form})
+        dist = pair_distance_matrix(inp, scale, variant, form)
+        calls += 1
+        got2 = project_d2(dist, scale).tolist()
+        bad = [(k, m) for k in range(n) for m in range(n)
+               if (got2[k][m] != pd2[k][m] if pair_exact else got2[k][m] < pd2[k][m])]
+        if bad:
+            k, m = bad[0]
+            rec("pair_distance", None, pd2, got2, {"form": form, "pair": [k, m], "pair_exact": pair_exact,
+                                                   "relation": "observed = expected" if pair_exact else "observed >= expected"})
+            continue
+        for r, rho in enumerate(R):
+            got = [sum(1 << v for v in row) for row in threshold_rows(dist, radius_of(rho, scale), selmask)]
+            calls += 1
+            if (got != adj[r]) if pair_exact else any(g & ~e for g, e in zip(got, adj[r])):
+                rec("distance_matrix_threshold", None, [bits_to_list(b) for b in adj[r]], [bits_to_list(b) for b in got],
+                    {"form": form, "rho": rho, "pair_exact": pair_exact,
+                     "relation": "observed = expected" if pair_exact else "observed <= expected"})
+                break
     return mism, calls, diag_cells
 
 
-_CONST = None
+_CONST = {}
 
 
 def warmup():
     import biotite.structure  # noqa: F401
 
-    global _CONST
-    if "C14_CONST" in os.environ and _CONST is None:
+    if "C14_CONST" in os.environ and not _CONST:
         with open(os.environ["C14_CONST"]) as f:
-            _CONST = json.load(f)
+            _CONST.update(json.load(f))      # {"grid": [Q, R, CR, MS], "few": [QP, R, CR, MS]}
 
 
 def exec_group(item):
     """S2 pool item: a slice of the dumped states (stored in the item's own file)."""
     warmup()
-    C = _CONST
     with open(item["file"]) as f:
         states = json.load(f)
     mism = []
     calls = 0
     diag = 0
-    for k, (inp, res) in enumerate(states):
+    for k, (inp, res, tag) in enumerate(states):
         idx = item["lo"] + k
         scale = SCALES[idx % len(SCALES)]
         try:
-            m, c, d = check_input(inp, res, C, scale, idx, item["light"])
+            m, c, d = check_input(inp, res, _CONST[tag], scale, idx, item["light"] and tag == "grid")
         except Exception as e:      # a public call raised on a well-formed input
             if not _from_biotite(e):
                 raise
@@ -288,6 +366,11 @@ BOXES = [
     [[8, 0, 0], [0, 4, 0], [0, 0, 4]],
     [[8, 0, 0], [-2, 4, 0], [2, 2, 4]],
     [[0, 4, 0], [4, 0, 0], [0, 0, 4]],
+    # one box per remaining tilt pattern (which pairs of box vectors are not perpendicular)
+    [[4, 0, 0], [0, 4, 0], [2, 0, 4]],
+    [[4, 0, 0], [0, 4, 0], [0, 2, 4]],
+    [[4, 0, 0], [2, 4, 0], [2, -1, 4]],
+    [[4, 0, 0], [2, 4, 0], [0, 2, 4]],
 ]
 CELLS = [[1, 1], [3, 2], [2, 1], [5, 1], [1, 2], [3, 1], [7, 2], [16, 1]]
 
@@ -432,11 +515,23 @@ def gen_trace(item):
                   out = cl.get_atoms_in_cells(qa, c[0], as_mask=as_mask)
               events.append({"op": "cells", "q": q, "c": c, "got": idx_rows(out, as_mask, single),
                              "as_mask": as_mask, "single": single, "multi": multi})
-          else:
+          elif k < 0.93:
               rho = _rand_rho(rng, False)
               progress({"inp": inp, "scale": scale, "variant": variant, "call": "create_adjacency_matrix", "rho": rho})
               m = cl.create_adjacency_matrix(radius_of(rho, scale))
               events.append({"op": "adjacency", "rho": rho, "got": [np.nonzero(row)[0].tolist() for row in m]})
+          else:
+              # the library's own pairwise distance matrix: entries (projected to integer squared
+              # distances, -1 = not a lattice distance) and its thresholded form
+              form = rng.choice(PAIR_FORMS)
+              rho = _rand_rho(rng, False)
+              progress({"inp": inp, "scale": scale, "variant": variant, "call": "pair_distance", "form": form, "rho": rho})
+              dist = pair_distance_matrix(inp, scale, variant, form)
+              d2 = project_d2(dist, scale)
+              prs = [[rng.randrange(n), rng.randrange(n)] for _ in range(min(n * n, 40))]
+              events.append({"op": "pairdist", "pairs": prs, "got": [int(d2[a][b]) for a, b in prs], "form": form})
+              selmask = np.array(sel[0], dtype=bool) if sel else np.ones(n, dtype=bool)
+              events.append({"op": "distadj", "rho": rho, "got": threshold_rows(dist, radius_of(rho, scale), selmask), "form": form})
       except Exception as e:      # a public call raised on a well-formed input
         if not _from_biotite(e):
             raise
@@ -476,6 +571,22 @@ def replay(record):
             got = [np.nonzero(row)[0].tolist() for row in m]
             out.update(observed=got, mismatch=got != record["expected"])
             return out
+        if call in ("pair_distance", "distance_matrix_threshold"):
+            import numpy as np
+
+            dist = pair_distance_matrix(inp, scale, variant, record["form"])
+            exact = record["pair_exact"]
+            if call == "pair_distance":
+                got = project_d2(dist, scale).tolist()
+                exp = record["expected"]
+                bad = any((g != e) if exact else (g < e) for gr, er in zip(got, exp) for g, e in zip(gr, er))
+            else:
+                selmask = np.array(inp[3][0], dtype=bool) if inp[3] else np.ones(n, dtype=bool)
+                got = threshold_rows(dist, radius_of(record["rho"], scale), selmask)
+                exp = record["expected"]
+                bad = any((g != e) if exact else (not set(g) <= set(e)) for g, e in zip(got, exp))
+            out.update(observed=got, relation=record["relation"], mismatch=bad)
+            return out
         return {"error": "record not replayable in isolation; rerun the check", "record": record}
     if record.get("kind") == "event":
         tr = record["trace"]
@@ -494,6 +605,17 @@ def replay(record):
             a = max(record["position"] - 1, 0)
             got = np.nonzero(m[a])[0].tolist()
             return {"observed": got, "expected": record["expected"], "mismatch": got != record["expected"]}
+        if e["op"] in ("pairdist", "distadj"):
+            dist = pair_distance_matrix(inp, scale, first["variant"], e["form"])
+            j = max(record["position"] - 1, 0)
+            if e["op"] == "pairdist":
+                a, b = e["pairs"][j]
+                got = int(project_d2(dist, scale)[a][b])
+                # (outside Dom_Images8 a larger value is allowed; every tabulated box is inside)
+                return {"observed": got, "expected": record["expected"], "mismatch": got != record["expected"]}
+            selmask = np.array(first["sel"][0], dtype=bool) if first["sel"] else np.ones(len(inp[0]), dtype=bool)
+            got = threshold_rows(dist, radius_of(e["rho"], scale), selmask)[j]
+            return {"observed": got, "expected": record["expected"], "mismatch": got != record["expected"]}
         if e["op"] == "cells":
             j = max(record["position"] - 1, 0)
             got = sorted(set(v for v in cl.get_atoms_in_cells(np.array(e["q"][j], dtype=dt) / scale, e["c"][j]).tolist() if v != -1))
@@ -510,7 +632,9 @@ def run(ctx):
         "Dom_Atoms/Dom_CellSize/Dom_Sel: >=1 atom, cell size > 0, selection with >= 1 selected atom and one flag per atom",
         "coordinates, box vectors: integers divided by 1, 2 or 4 (dyadic rationals: float32 arithmetic is exact); cell sizes p/q with q in {1,2}",
         "Dom_Radius: radius is an integer (pairs exactly on the sphere allowed) or sqrt(k+1/2) (no lattice pair on the sphere)",
-        "Dom_Images27: periodic boxes are the eight boxes of TabBoxes, for each of which TLC checked that the 27 stored images contain a minimum image of every in-box displacement (strongly skewed boxes excluded)",
+        "Dom_Images8: the library's pairwise distance matrix (index_distance(periodic=True), distance(box=)) must equal the minimum-image distances only for boxes in which the 8 periodic copies w + k.B, k in {-1,0}^3, of a wrapped displacement always contain a shortest one (documented limitation of the distance functions for skewed boxes); TLC evaluates this per box (true for all tabulated boxes); outside it only 'not smaller' / thresholded matrix contained in the adjacency matrix is required",
+        "distances returned by the library are projected to integer squared distances in ticks^2 (|d^2 - integer| <= 1e-3, else reported as not-a-lattice-distance)",
+        "Dom_Images27: periodic boxes are the twelve boxes of TabBoxes (all 8 tilt patterns), for each of which TLC checked that the 27 stored images contain a minimum image of every in-box displacement (strongly skewed boxes excluded)",
         "results are compared as sets of atom indices (padding and repeated periodic copies ignored); get_atoms_in_cells only as must <= result <= selection",
         "exhaustive model: <= 3 atoms; up to 60 atoms only through recorded executions",
         "trusted: TLC, the dump parser of this driver, numpy",
@@ -525,21 +649,38 @@ def run(ctx):
     if not consts:
         raise RuntimeError("C14CONST not printed by TLC")
     C = tla_to_py(consts[0].replace('"C14CONST",', "", 1))
+    CONSTS = {"grid": C[:4], "few": [C[4]] + C[1:4]}
     path = prefix + ".dump" if os.path.exists(prefix + ".dump") else prefix
     states = parse_dump(path)
     if 2 * len(states) != res.distinct:
         raise RuntimeError(f"dump has {len(states)} evaluated states, TLC reported {res.distinct} states")
     states.sort(key=lambda s: json.dumps(s[0]))
-    ctx.log(f"S1: {len(states)} inputs, {len(C[0])} queries, {len(C[1])} radii")
-    for inp, r in states:
-        if r[1] != [True, True, True, True]:
+    npairs = sum(1 for st in states if st[2] == "few")
+    ctx.log(f"S1: {len(states) - npairs} inputs x {len(C[0])} queries + {npairs} two-atom inputs (every displacement class of every box) x {len(C[4])} queries, {len(C[1])} radii")
+    for inp, r, _tag in states:
+        if r[1] != [True] * 5:
             # also reported by TLC as a violated invariant; keep the input for the record
             ctx.note(f"design claim false for input {inp}: {r[1]}")
     # vacuity: the families must contain periodic, selected, duplicate inputs
-    kinds = {"periodic": 0, "selection": 0, "duplicates": 0, "triclinic": 0, "n3": 0}
+    kinds = {"periodic": 0, "selection": 0, "duplicates": 0, "triclinic": 0, "n3": 0, "pair_family": npairs,
+             "periodic_selection": 0}
+    # which pairs of box vectors are not perpendicular (a.b, a.c, b.c): all 8 patterns must occur,
+    # in the query-heavy family and in the pair family, and the pair distances must be decisive
+    # (some pair whose plain difference is NOT the shortest image) for each of them
+    tilt = {"grid": {}, "few": {}}
+    tilt_wrapped = {}
     nontrivial = 0
-    nq = len(C[0])
-    for inp, r in states:
+    for inp, r, tag in states:
+        nq = len(CONSTS[tag][0])
+        if inp[2]:
+            b = inp[2][0]
+            pat = "".join("T" if sum(b[i][k] * b[j][k] for k in range(3)) != 0 else "F" for i, j in ((0, 1), (0, 2), (1, 2)))
+            tilt[tag][pat] = tilt[tag].get(pat, 0) + 1
+            pd2 = r[0][5][0]
+            at = inp[0]
+            if any(pd2[k][m] < sum((at[k][i] - at[m][i]) ** 2 for i in range(3)) for k in range(len(at)) for m in range(len(at))):
+                tilt_wrapped[pat] = tilt_wrapped.get(pat, 0) + 1
+            kinds["periodic_selection"] += bool(inp[3])
         kinds["periodic"] += bool(inp[2])
         kinds["selection"] += bool(inp[3])
         kinds["duplicates"] += len({tuple(a) for a in inp[0]}) < len(inp[0])
@@ -552,14 +693,19 @@ def run(ctx):
         if any(any(v not in (0, full) for v in row) for row in rows):
             nontrivial += 1
     ctx.cov["input_kinds"] = kinds
+    ctx.cov["box_tilt_patterns"] = {"grid": tilt["grid"], "pairs": tilt["few"], "with_wrapped_pair": tilt_wrapped}
     if not all(kinds.values()):
         raise Vacuity(f"input families miss a kind: {kinds}")
+    allpat = {a + b + c for a in "FT" for b in "FT" for c in "FT"}
+    for name, got in (("query-heavy family", tilt["grid"]), ("pair family", tilt["few"]), ("inputs with a wrapped pair", tilt_wrapped)):
+        if set(got) != allpat:
+            raise Vacuity(f"{name}: box tilt patterns {sorted(allpat - set(got))} never occur")
     ctx.cov["rule"] = "an input is non-trivial when some query/radius pair has a result that is neither empty nor the whole atom set"
     ctx.nontrivial += nontrivial
     # ---- S2 ------------------------------------------------------------------------------
     cfile = os.path.join(d, "const.json")
     with open(cfile, "w") as f:
-        json.dump(C, f)
+        json.dump(CONSTS, f)
     per = 40
     items = []
     for lo in range(0, len(states), per):
@@ -581,7 +727,9 @@ def run(ctx):
         ctx.note(f"get_atoms_in_cells differs from the implementation-shaped grid prediction in {diag} rows (diagnostic: the grid layout of the code is not the modelled one)")
     if calls == 0:
         raise Vacuity("S2 executed no call")
-    ctx.sample({"s2_input": states[len(states) // 2][0], "expected_near_r4_unpacked": unpack_row(states[len(states) // 2][1][0][0][4], nq)[:20]})
+    mid = states[len(states) // 2]
+    ctx.sample({"s2_input": mid[0], "expected_near_r4_unpacked": unpack_row(mid[1][0][0][4], len(CONSTS[mid[2]][0]))[:20],
+                "expected_pair_d2": mid[1][0][5][0]})
     ctx.log(f"S2: {done} inputs, {calls} calls executed against CellList")
     # ---- S3 ------------------------------------------------------------------------------
     ntr = 60 if quick else 1200
@@ -590,7 +738,7 @@ def run(ctx):
     titems = [{"seed": s, "length": length, "nmax": 60 if k % 4 == 0 else 21} for k, s in enumerate(seeds)]
     tres = helpers.run_pool(ctx, "harness.drivers.c14:gen_trace", titems, stage="S3", item_timeout=120)
     traces = [r["events"] for r in tres if r and r.get("events")]
-    keep = ("op", "atoms", "cs", "box", "sel", "q", "rho", "c", "got")
+    keep = ("op", "atoms", "cs", "box", "sel", "q", "rho", "c", "got", "pairs")
     mms = []
     for chunk in helpers.chunked(traces, 400):
         mms_c = helpers.tlc_validate(ctx, chunk, keep=keep, timeout=1500)
@@ -612,6 +760,17 @@ def run(ctx):
 
     def corrupt(tr):
         for e in tr[1:]:
+            if e["op"] == "pairdist" and e["got"]:
+                e["got"][0] -= 1      # smaller than the minimum-image distance: wrong in every domain
+                return True
+            if e["op"] == "distadj" and e["got"]:
+                g = e["got"][0]
+                cand = [k for k in range(len(tr[0]["atoms"])) if (not tr[0]["sel"] or tr[0]["sel"][0][k]) and k not in g]
+                if cand:
+                    g.append(cand[0])     # an atom beyond the threshold: wrong in every domain
+                else:
+                    g.pop()
+                return True
             if e["op"] in ("get_atoms", "adjacency") and e["got"]:
                 g = e["got"][0]
                 n = len(tr[0]["atoms"])
@@ -623,5 +782,20 @@ def run(ctx):
                 return True
         return False
 
-    helpers.binding_selftest(ctx, [[{k: e[k] for k in keep if k in e} for e in t] for t in traces], corrupt)
+    # the self-test must reach the pairwise-distance events too: one short trace per such op first
+    npd = sum(1 for t in traces for e in t[1:] if e["op"] == "pairdist")
+    npd_wrapped = sum(1 for t in traces if t[0]["box"] for e in t[1:] if e["op"] == "pairdist")
+    ctx.cov["s3_pair_distance_events"] = npd
+    ctx.cov["s3_pair_distance_events_periodic"] = npd_wrapped
+    if not npd_wrapped:
+        raise Vacuity("S3 recorded no pairwise distance matrix of a periodic system")
+    st = []
+    for op in ("pairdist", "distadj"):
+        for t in traces:
+            ev = [e for e in t[1:] if e["op"] == op and e["got"]]
+            if ev:
+                st.append([t[0], ev[0]])
+                break
+    st += traces[:1]
+    helpers.binding_selftest(ctx, [[{k: e[k] for k in keep if k in e} for e in t] for t in st], corrupt)
     ctx.log(f"S3: {len(traces)} traces / {nev} events validated by TLC, {len(mms)} mismatches")
